@@ -69,7 +69,7 @@ def laws():
             if trig:
                 v[comp] = c * sin(e[0] * p.x) * cos(e[1] * p.y) + p.x * p.y
             else:
-                v[comp] = c * p.x**e[0] * p.y**e[1]
+                v[comp] = c * p.x**e[0] * p.y**e[1] * (p.z**e[2] if len(e) > 2 else 1)
             return v
         return VectorField(fn, C)
 
@@ -79,6 +79,8 @@ def laws():
 
     M3 = [(m, e) for m in range(3) for e in monomials(3, deg)]
     M2 = [(m, e) for m in range(2) for e in monomials(2, deg)]
+    # planar fields written with a z-dependence (the planar region sits at z = 0: missing coordinates count as zero)
+    M2z = [(m, e) for m in range(2) for e in monomials(3, deg) if e[2] >= 1]
 
     # ------------------------------------------------------------------ Stokes
     @law("circulation_along_curve==circulation_along_surface_boundary/stokes-on-ellipse-capped-by-paraboloid",
@@ -117,7 +119,7 @@ def laws():
         return Case([lhs - rhs] + free_of(lhs, [u] + xyz) + free_of(rhs, [u, v] + xyz))
 
     # ------------------------------------------------------------------ Green (divergence form)
-    @law("flux_across_curve==flux_across_surface_boundary/green-on-ellipse", [(m, e, o) for m, e in M2 for o in ("rho-phi", "phi-rho")])
+    @law("flux_across_curve==flux_across_surface_boundary/green-on-ellipse", [(m, e, o) for m, e in M2 for o in ("rho-phi", "phi-rho")] + [(m, e, "rho-phi") for m, e in M2z])
     def _(s, g):
         C = CS(CS.System.CARTESIAN)
         fld = field2(g, s[0], s[1], C)
@@ -151,6 +153,30 @@ def laws():
             rhs = AN.flux_across_surface_boundary(fld, [x0 + w * u, y0 + hh * v], (v, 0, 1), (u, 0, 1))
         xyz = list(C.coord_system.base_scalars())
         return Case([lhs - rhs] + free_of(lhs, [u] + xyz) + free_of(rhs, [u, v] + xyz))
+
+    # ------------------------------------------------------------------ regions whose inner limits depend on the outer parameter
+    @law("stokes-and-green-on-a-disc-given-by-dependent-limits(inner limits depend on the outer parameter)",
+         [(m, e) for m, e in M2 if sum(e) <= 2] + [(0, (0, 1, 1)), (1, (1, 0, 1))])
+    def _(s, g):
+        C = CS(CS.System.CARTESIAN)
+        R = g.sym("R", positive=True)
+        t, u, v = g.var("t"), g.var("u"), g.var("v")
+        curve = [R * cos(t), R * sin(t)]
+        # the same disc as {(u, v): -sqrt(R^2 - v^2) <= u <= sqrt(R^2 - v^2), -R <= v <= R}; parameter1 = u (inner), parameter2 = v (outer)
+        lim_u, lim_v = (u, -sp.sqrt(R**2 - v**2), sp.sqrt(R**2 - v**2)), (v, -R, R)
+        res = []
+        e = s[1]
+        if len(e) == 2:
+            fld = field2(g, s[0], e, C)
+            res.append(AN.flux_across_curve(fld, curve, (t, 0, 2 * pi)) - AN.flux_across_surface_boundary(fld, [u, v], lim_u, lim_v))
+            fld3 = field3(g, s[0], e + (0,), C)
+        else:
+            fld3 = field3(g, s[0], e, C)
+        lhs = AN.circulation_along_curve(fld3, curve + [0], (t, 0, 2 * pi))
+        rhs = AN.circulation_along_surface_boundary(fld3, [u, v, 0], lim_u, lim_v)
+        res.append(lhs - rhs)
+        res += free_of(rhs, [u, v] + list(C.coord_system.base_scalars()))
+        return Case(res)
 
     # ------------------------------------------------------------------ Gauss on a box
     @law("flux_across_surface(six faces)==flux_across_volume_boundary/gauss-on-box",
